@@ -38,7 +38,7 @@ RULE = ('conversions: every component tuple of length 1..5 over {0,1,9,10,99,100
         'VersionPredicate: conjunctions of 1..3 comparisons over the six operators (all-true, exactly-one-false, '
         'range, random) x candidates on and around every bound; malformed strings. non-trivial = more than one '
         'component / two different texts / any predicate; distinct by the texts handed to the code under test')
-REQUIRED_CLAUSES = ['predicate-copy-answers-the-same', 'under-lazy-translation', 'documented-keyword-call', 'roundtrip', 'str-vs-tuple-input', 'int-order', 'suffix-ignored',
+REQUIRED_CLAUSES = ['concurrent-calls-answer-as-alone', 'predicate-copy-answers-the-same', 'under-lazy-translation', 'documented-keyword-call', 'roundtrip', 'str-vs-tuple-input', 'int-order', 'suffix-ignored',
                     'non-numeric-ValueError', 'compat', 'predicate-parses', 'satisfied_by',
                     'malformed-predicate-ValueError', 'model-vs-packaging-selfcheck']
 ASSUMPTIONS = ['"major number" is the first number of the release segment (epochs are not part of it)',
@@ -52,6 +52,7 @@ ASSUMPTIONS = ['"major number" is the first number of the release segment (epoch
                'leading zeros, empty components and non-ASCII digits are DONT-CARE (only: no exception other than '
                'ValueError)']
 INTERPRETER_FLAGS = [[], ['-O'], [], ['-bb']]
+CONCURRENT = lambda case: True          # pure functions of their arguments; see vlib/concurrent.py
 SHARDS = {'quick': 4, 'thorough': 16}
 
 GRID = [0, 1, 9, 10, 99, 100, 999]
@@ -627,6 +628,21 @@ def selfcheck(ctx, n):
 # ----------------------------------------------------------------------
 # workload
 # ----------------------------------------------------------------------
+
+def HAMMER(ctx):
+    from oslo_utils import versionutils as vu
+    out = []
+    for req, cur, sm in (('1.0', '1.1', True), ('2.0', '1.9', True), ('1.2.3', '1.2.3', False), ('3.1', '4.0', True),
+                         ('3.1', '4.0', False), ('1.0rc1', '1.0', True), ('1.0.post1', '1.0', True), ('0.9', '0.10', True),
+                         ('2!1.0', '1!9.0', False), ('1.0', '1.0.dev1', True)):
+        out.append(('is_compatible(%r, %r, %r)' % (req, cur, sm), lambda a=req, b=cur, c=sm: vu.is_compatible(a, b, same_major=c)))
+    for v in ('1.2.3', '10.20.30', '0.0.1', '999.999.999', '1.2.3rc1', '7.1', '1.x'):
+        out.append(('convert_version_to_int(%r)' % v, lambda t=v: vu.convert_version_to_int(t)))
+        out.append(('convert_version_to_tuple(%r)' % v, lambda t=v: vu.convert_version_to_tuple(t)))
+    for p, v in (('>=1.0,<2.0', '1.5'), ('>=1.0,<2.0', '2.0'), ('!=1.3', '1.3'), ('<=2.0rc1', '2.0b1'), ('>1.0', '1.0.post1')):
+        out.append(('VersionPredicate(%r).satisfied_by(%r)' % (p, v), lambda a=p, b=v: vu.VersionPredicate(a).satisfied_by(b)))
+    return out
+
 def run(ctx):
     idx = 0
 
